@@ -59,6 +59,16 @@ pub fn spawn(kind: &str) -> App {
 }
 
 pub fn spawn_env(kind: &str, env: &[(&str, String)]) -> App {
+    // (see `spawn_app_with`: a port on which something else answers is given up and another one is tried)
+    for _attempt in 0..3 {
+        if let Some(app) = spawn_env_once(kind, env) {
+            return app;
+        }
+    }
+    spawn_env_once(kind, env).unwrap_or_else(|| common::machinery(&format!("the application (configuration '{kind}') could not be started on four ports")))
+}
+
+fn spawn_env_once(kind: &str, env: &[(&str, String)]) -> Option<App> {
     let port = free_port();
     let dir = format!("{}/target/app-{}-{port}", common::VERIF_ROOT, std::process::id());
     std::fs::create_dir_all(&dir).expect("config dir");
@@ -77,22 +87,27 @@ pub fn spawn_env(kind: &str, env: &[(&str, String)]) -> App {
     }
     let mut child = cmd.stdout(std::process::Stdio::null()).stderr(std::process::Stdio::piped()).spawn().expect("spawn child");
     let addr: SocketAddr = format!("127.0.0.1:{port}").parse().unwrap();
-    for _ in 0..800 {
-        if std::net::TcpStream::connect_timeout(&addr, Duration::from_millis(200)).is_ok() {
-            std::thread::sleep(Duration::from_millis(20));
-            let _ = std::fs::remove_dir_all(&dir);
-            return App { child, addr };
-        }
-        if let Ok(Some(st)) = child.try_wait() {
-            let mut err = String::new();
-            if let Some(mut e) = child.stderr.take() {
-                let _ = std::io::Read::read_to_string(&mut e, &mut err);
-            }
-            let _ = std::fs::remove_dir_all(&dir);
-            common::machinery(&format!("the application (configuration '{kind}') exited with {st} before listening: {}", err.lines().last().unwrap_or("")));
-        }
-        std::thread::sleep(Duration::from_millis(10));
+    if wait_until_listening(&mut child, port) {
+        let _ = std::fs::remove_dir_all(&dir);
+        return Some(App { child, addr });
     }
+    if let Ok(Some(st)) = child.try_wait() {
+        let mut err = String::new();
+        if let Some(mut e) = child.stderr.take() {
+            let _ = std::io::Read::read_to_string(&mut e, &mut err);
+        }
+        let _ = std::fs::remove_dir_all(&dir);
+        if err.contains("Address already in use") {
+            // somebody else had the port: another one is tried
+            return None;
+        }
+        common::machinery(&format!("the application (configuration '{kind}') exited with {st} before listening: {}", err.lines().last().unwrap_or("")));
+    }
+    let _ = child.kill();
+    let _ = child.wait();
+    let _ = std::fs::remove_dir_all(&dir);
+    return None;
+    #[allow(unreachable_code)]
     common::machinery("passage::start (configuration read from files) did not start listening within 8 s")
 }
 
